@@ -722,3 +722,173 @@ def memo_key_gaps(fi_node: ast.FunctionDef, key: ast.expr, value: ast.expr) -> L
 
     visit(key, True)
     return sorted(dep - determined)
+
+
+def lost_fancy_stores(fn_node: ast.FunctionDef):
+    """numpy contract: `a[i][j] = v` stores into the temporary copy `a[i]` when `i` is an index array or a boolean mask
+    (advanced indexing returns a copy), so `a` is left unchanged.  Returns [(statement, inner index text, why)] for
+    assignments / augmented assignments whose target is a subscript of a subscript with an inner index that is an
+    array by construction (flatnonzero / where / nonzero / argsort / arange / a comparison / ~mask / a subscript of
+    such).  Inner indices that are scalars, slices or of unknown kind are not reported."""
+    from .dataflow import Resolver as _Res, flow_of as _flow
+
+    ARRAY_MAKERS = {"flatnonzero", "where", "nonzero", "argsort", "argwhere", "arange", "unique", "array", "asarray", "choice", "permutation", "searchsorted", "isin", "isfinite", "isinf", "isnan",
+                    "logical_and", "logical_or", "logical_not", "zeros", "ones", "full"}
+    out = []
+    rs = None
+    flow = None
+    for st in ast.walk(fn_node):
+        tgs = []
+        if isinstance(st, ast.Assign):
+            tgs = [x for t in st.targets for x in (t.elts if isinstance(t, (ast.Tuple, ast.List)) else [t])]
+        elif isinstance(st, ast.AugAssign):
+            tgs = [st.target]
+        for t in tgs:
+            if not (isinstance(t, ast.Subscript) and isinstance(t.value, ast.Subscript)):
+                continue
+            inner = t.value.slice
+            if rs is None:
+                rs = _Res(fn_node)
+                flow = _flow(fn_node)
+            at = flow.node_containing(st)
+
+            def arrayish(e, depth=0) -> Optional[str]:
+                if depth > 6 or e is None:
+                    return None
+                if isinstance(e, (ast.Compare, ast.BoolOp)):
+                    return "a comparison (boolean mask)"
+                if isinstance(e, ast.UnaryOp) and isinstance(e.op, (ast.Invert, ast.Not)):
+                    return "a negated mask"
+                if isinstance(e, ast.Call) and dotted_name(e.func).split(".")[-1] in ARRAY_MAKERS:
+                    return f"the result of {dotted_name(e.func)}()"
+                if isinstance(e, ast.Subscript):
+                    return arrayish(e.slice, depth + 1) or (arrayish(e.value, depth + 1) if isinstance(e.slice, (ast.Name, ast.UnaryOp, ast.Compare)) and arrayish(e.slice, depth + 1) else None)
+                if isinstance(e, ast.Tuple):
+                    for x in e.elts:
+                        r = arrayish(x, depth + 1)
+                        if r:
+                            return r
+                if isinstance(e, ast.Name) and at is not None:
+                    ds = flow.reaching(at, e.id)
+                    whys = [arrayish(d.value, depth + 1) if (d.kind == "assign" and d.value is not None and not d.path) else None for d in ds]
+                    if ds and all(whys):
+                        return whys[0]
+                return None
+
+            why = arrayish(inner)
+            if why:
+                out.append((st, ast.unparse(inner), why))
+    return out
+
+
+def eigh_reconstruction_errors(fn_node: ast.FunctionDef):
+    """numpy contract: `w, V = np.linalg.eigh(A)` returns the eigenvectors as the *columns* of V (A = V diag(w) V^T,
+    batched: A[k] = einsum('ij,j,lj->il', V[k], w[k], V[k])).  Returns [(call / expression node, why)] for
+    reconstructions that contract the eigenvalues with the *row* index of V instead (V^T diag(w) V): still symmetric,
+    still positive definite when w > 0, but rotated -- a different matrix.
+      * np.einsum with a literal subscript string whose operands are a value derived from w and values derived from V:
+        the letter of w's last axis must be the last letter of every V operand;
+      * `X @ np.diag(w') @ Y` / `(X * w') @ Y`: X must be V (not transposed) and Y its transpose.
+    Names are 'derived' through subscripts (V[mask]), np.maximum / clip / where / abs / sqrt of w, copies."""
+    vals: Set[str] = set()
+    vecs: Set[str] = set()
+    for x in ast.walk(fn_node):
+        if isinstance(x, ast.Assign) and isinstance(x.value, ast.Call) and dotted_name(x.value.func).split(".")[-1] in ("eigh", "eig") and len(x.targets) == 1 \
+                and isinstance(x.targets[0], ast.Tuple) and len(x.targets[0].elts) == 2 and all(isinstance(e, ast.Name) for e in x.targets[0].elts):
+            vals.add(x.targets[0].elts[0].id)
+            vecs.add(x.targets[0].elts[1].id)
+    if not vecs:
+        return []
+
+    def base_kind(e, depth=0) -> Optional[str]:
+        """'w' / 'V' / 'Vt' for expressions that are the eigenvalues / eigenvectors (possibly selected / floored) / transposed eigenvectors"""
+        if depth > 6:
+            return None
+        if isinstance(e, ast.Name):
+            return "w" if e.id in vals else ("V" if e.id in vecs else None)
+        if isinstance(e, ast.Subscript):
+            k = base_kind(e.value, depth + 1)
+            if k in ("V", "Vt") and isinstance(e.slice, ast.Tuple) and any(isinstance(z, ast.Slice) or (isinstance(z, ast.Constant) and z.value is None) for z in e.slice.elts):
+                return None  # reshaped / re-axed: not followed
+            return k
+        if isinstance(e, ast.Attribute) and e.attr == "T":
+            k = base_kind(e.value, depth + 1)
+            return {"V": "Vt", "Vt": "V"}.get(k)
+        if isinstance(e, ast.Call):
+            nm = dotted_name(e.func).split(".")[-1]
+            if nm in ("maximum", "clip", "where", "abs", "sqrt", "fmax", "copy", "asarray", "array") and e.args:
+                ks = [base_kind(a, depth + 1) for a in e.args] + ([base_kind(e.func.value, depth + 1)] if isinstance(e.func, ast.Attribute) else [])
+                if "w" in ks:
+                    return "w"
+                if nm in ("copy", "asarray", "array") and "V" in ks:
+                    return "V"
+            if nm in ("swapaxes", "transpose") and (e.args or isinstance(e.func, ast.Attribute)):
+                inner = e.func.value if isinstance(e.func, ast.Attribute) and base_kind(e.func.value, depth + 1) else (e.args[0] if e.args else None)
+                k = base_kind(inner, depth + 1) if inner is not None else None
+                return {"V": "Vt", "Vt": "V"}.get(k)
+        return None
+
+    # local names bound to derived values
+    for _ in range(3):
+        for x in ast.walk(fn_node):
+            if isinstance(x, ast.Assign) and len(x.targets) == 1 and isinstance(x.targets[0], ast.Name):
+                k = base_kind(x.value)
+                if k == "w":
+                    vals.add(x.targets[0].id)
+                elif k == "V":
+                    vecs.add(x.targets[0].id)
+    out = []
+    for c in ast.walk(fn_node):
+        if isinstance(c, ast.Call) and dotted_name(c.func).split(".")[-1] == "einsum" and c.args and isinstance(c.args[0], ast.Constant) and isinstance(c.args[0].value, str) and "->" in c.args[0].value:
+            spec = c.args[0].value.replace(" ", "")
+            ins = spec.split("->")[0].split(",")
+            ops = c.args[1:]
+            if len(ins) != len(ops):
+                continue
+            kinds = [base_kind(o) for o in ops]
+            if "w" not in kinds or not any(k in ("V", "Vt") for k in kinds):
+                continue
+            wl = ins[kinds.index("w")].replace("...", "")
+            if not wl:
+                continue
+            j = wl[-1]
+            for sub, k, o in zip(ins, kinds, ops):
+                sub = sub.replace("...", "")
+                if k in ("V", "Vt") and j in sub:
+                    pos_last = sub[-1] == j
+                    if (k == "V" and not pos_last) or (k == "Vt" and pos_last):
+                        out.append((c, f"einsum('{spec}') contracts the eigenvalue index '{j}' with the row index of the eigenvector matrix `{ast.unparse(o)[:30]}` (eigh returns eigenvectors as columns)"))
+                        break
+        elif isinstance(c, ast.BinOp) and isinstance(c.op, ast.MatMult):
+            # flatten a @ b @ c
+            chain_ = []
+
+            def flat(e):
+                if isinstance(e, ast.BinOp) and isinstance(e.op, ast.MatMult):
+                    flat(e.left)
+                    flat(e.right)
+                else:
+                    chain_.append(e)
+
+            flat(c)
+            ks = []
+            for e in chain_:
+                k = base_kind(e)
+                if k is None and isinstance(e, ast.Call) and dotted_name(e.func).split(".")[-1] == "diag" and e.args and base_kind(e.args[0]) == "w":
+                    k = "D"
+                if k is None and isinstance(e, ast.BinOp) and isinstance(e.op, ast.Mult):
+                    a, b = base_kind(e.left), base_kind(e.right)
+                    if {a, b} == {"V", "w"}:
+                        k = "VD"  # V * w scales the columns: V diag(w)
+                    elif {a, b} == {"Vt", "w"}:
+                        k = "VtD"
+                ks.append(k)
+            sig = [k for k in ks if k]
+            if sig in (["Vt", "D", "V"], ["VtD", "V"]):
+                out.append((c, "`V.T @ diag(w) @ V` rebuilds the matrix with the eigenvectors taken as rows (eigh returns them as columns: V @ diag(w) @ V.T)"))
+    # keep the outermost matmul only
+    uniq = []
+    for (n, why) in out:
+        if not any(n is not m and any(n is y for y in ast.walk(m)) for (m, _) in out):
+            uniq.append((n, why))
+    return uniq
